@@ -12,7 +12,10 @@ to_string_pretty, Display for Table and Display for Value, reads the SECTION STR
 (headers, key names and the shape of every value, in order of appearance), decodes the text again, and
 prints
 
-  vdoc=<doc> pdoc=<doc> tdoc=<doc> vdisp=<shape> rb=<value> fix=.. pp=.. dec=.. tfix=.. det=.. # text=<hex> ptext=<hex> ttext=<hex>
+  vdoc=<doc> pdoc=<doc> tdoc=<doc> sdoc=<doc> vdisp=<shape> rb=<value> fix=.. pp=.. dec=.. tfix=.. sdec=.. s2fix=.. det=.. # text=<hex> ptext=<hex> ttext=<hex> stext=<hex>
+
+(sdoc / sdec / s2fix / stext: the same tree serialized by a wrapper that, like a derived struct or a plain map,
+hands every container's entries over in the container's own order at every level — no three loops anywhere)
 
 The model (coq/Extract/Cmd_c17.v over Model/TomlValue.v) prints everything before ` # ` from the
 description alone; that part must be identical (correspondence).  The three texts after ` # ` are for
@@ -31,11 +34,21 @@ The ORACLE looks at the implementation's line only:
 must be equal and tomllib must read the print back as the value tomllib reads from the source
 (implementation only; the model answers `skip`).
 
+`canon <type> <value> <s|i>`: a value of a DERIVED type (lib/gen_serde.py; answered by the runtime-typed serde
+harness `harness/src/bin/serde`, command `canon`, in the build named by the third argument): the same text
+twice; plain / pretty / toml_edit outputs decode to equal values; the text parsed as toml::Table prints the
+same twice; re-reading the text as toml::Value and printing it gives the same text, or — when the type's field
+order is not the order a toml::Value iterates in (BTreeMap: sorted; IndexMap: plain values, arrays holding
+tables, tables) — a text that decodes to the same value (counted as `derived_reordered`; the exact one-step
+fixed point for a derived type is reading back AT THE SAME TYPE, which is the round trip of C07).
+Implementation only: the model of the derive family is C07's.
+
 The build without `preserve_order` answers `skip` for ord `i`; compare and oracle then substitute the
 answer of the `po` build (one lazy batch), so those cases count like all others."""
 import itertools, math, struct, tomllib
 import common
 import gen_toml as G
+import gen_serde as GS
 from runner import Case
 
 PROP = "C17"
@@ -48,14 +61,21 @@ EXTRA_ORACLE = []          # ord `i` cases are routed to the po build by _impl()
 THEOREMS = []              # filled at the end of the file
 RULE = ("toml::Value trees of depth <= 5 whose keys make sorted and insertion order interleave scalars, plain arrays, "
         "mixed arrays, arrays of tables and tables (empty tables, tables holding only sub-tables, arrays of empty tables, "
-        "arrays of tables inside arrays, keys that need quoting), each under BTreeMap and under IndexMap; ALL entry-kind "
-        "sequences of length <= 3 (quick) / <= 4 (thorough) over 9 entry kinds in every key order; random valid documents "
-        "for parse-print-parse-print; non-trivial = some table lists a sub-table or array of tables before one of its values "
-        "in map order")
+        "arrays of tables inside arrays, keys that need quoting, multi-line strings), each under BTreeMap and under IndexMap, "
+        "each printed by to_string, to_string_pretty, Display for Table, Display for Value and by a serializer that keeps the "
+        "container's own order at every level (struct-like); ALL entry-kind sequences of length <= 3 (quick) / <= 4 (thorough) "
+        "over 9 entry kinds in every key order, at the root, inside a table and inside an array of tables; random valid "
+        "documents for parse-print-parse-print; random values of derived types (gen_serde) through the runtime-typed serde "
+        "harness in both builds; non-trivial = some table lists a sub-table or array of tables before one of its values in "
+        "map order (val), >= 3 statements (txt), type depth >= 2 and serializable (derived)")
 ASSUMPTIONS = [
     "leaves are opaque tokens in the model (their text round trip is C10/C11/C12); generated leaves avoid NaN",
     "the section structure is read off the text by a line scanner in the harness; each key/value entry is tokenised by the crate's own parser",
     "the independent decoder of the oracle is python's tomllib (TOML 1.0)",
+    "a derived Serialize impl is modelled by its functional specification: one serialize_entry per field in declaration order "
+    "(ser_plain); on the implementation side by a wrapper with exactly that behaviour (harness Plain) and by the dynserde driver of C07",
+    "the one-step fixed point of a derived type is reading back at the same type (C07); re-read as toml::Value the fields are sorted / "
+    "regrouped, so only the second print is a fixed point (C17_struct_second_print) — the oracle accepts a reprint that decodes to the same value",
 ]
 
 # ------------------------------------------------------------------------------------------
@@ -360,11 +380,11 @@ def gen_cases(rng, tier):
                 out += mk_cases(Tab([(b"k", ("i", 0)), (b"in", inner)]), "exhaustive-nested")[1:]
                 out += mk_cases(Tab([(b"el", [inner, inner]), (b"k", ("i", 0))]), "exhaustive-nested")[1:]
     # random trees
-    n_rand = 2500 if quick else 200000
+    n_rand = 2500 if quick else 60000
     for _ in range(n_rand):
         out += mk_cases(rand_table(rng, rng.randrange(1, 5)), "random")
     # parse-print-parse-print of valid documents
-    n_txt = 1500 if quick else 100000
+    n_txt = 1500 if quick else 40000
     made = 0
     tries = 0
     while made < n_txt and tries < 20 * n_txt:
@@ -382,9 +402,28 @@ def gen_cases(rng, tier):
     for t in [b"", b"a = 1\n", b"[a]\n[b]\n[a.c]\n", b"[a.b]\n[a]\nx = 1\n", b"[[a]]\n[[a.b]]\n[a.c]\n[[a]]\n", b"a.b = 1\na.c = 2\n",
               b"a = { b = 1, c = { d = 2 } }\n", b"[t]\nz = 1\n[t.s]\ny = 2\n[u]\n", b"x = [ { a = 1 }, { b = 2 } ]\ny = [1, {a = 1}]\n"]:
         out.append(Case("txt", [t], {"kind": "txt", "nt": True}))
+    # values of derived types, in both builds
+    n_der = 1200 if quick else 25000
+    g = GS.SerdeGen(rng, max_depth=4, allow_unsupported=False)
+    made = 0
+    while made < n_der:
+        ty = g.root_ty()
+        v = g.value(ty)
+        if GS.mentions_private(ty, v) or _root_is_datetime(ty, v):
+            continue        # the in-band date-time tunnel names: C07's known class F14, not this property
+        a = [GS.ty_str(ty).encode(), GS.val_str(v).encode()]
+        for o in (b"s", b"i"):
+            out.append(Case("canon", a + [o], {"kind": "derived/" + o.decode(), "nt": GS.ty_depth(ty) >= 2}))
+        made += 1
     del _ALL[:]
     _ALL.extend(out)
     return out
+
+
+def _root_is_datetime(ty, v):
+    while ty[0] in ("N", "O") and v[0] in ("W", "O"):
+        ty, v = (ty[2] if ty[0] == "N" else ty[1]), v[1]
+    return ty[0] in ("dt", "da", "ti") or (ty[0] == "v" and v[0] == "V" and v[1][0] == "X")
 
 
 # ------------------------------------------------------------------------------------------
@@ -408,13 +447,51 @@ def _po_line(case):
     return _po_cache[line]
 
 
+_serde_cache = {}
+_serde_bins = {}
+STATS = {"derived_serializable": 0, "derived_reordered": 0}
+
+
+def _serde_bin(feat):
+    if feat not in _serde_bins:
+        b = common.harness_bin("release", feat, "serde")
+        with common.build_lock():
+            r = common.build_harness("release", feat, bin_name="serde")
+        import os
+        if not r.ok and not os.path.exists(b):
+            b = None
+        _serde_bins[feat] = b
+    return _serde_bins[feat]
+
+
+def _serde_line(case):
+    line = case.line()
+    if line not in _serde_cache:
+        for o, feat in ((b"s", ()), (b"i", ("po",))):
+            todo = [c.line() for c in _ALL if c.cmd == "canon" and c.args[2] == o]
+            if case.args[2] == o and line not in todo:
+                todo = [line]
+            todo = [l for l in dict.fromkeys(todo) if l not in _serde_cache]
+            if not todo:
+                continue
+            b = _serde_bin(feat)
+            outs = common.run_lines(b, todo) if b else ["CRASH serde harness did not build"] * len(todo)
+            for l, r in zip(todo, outs):
+                _serde_cache[l] = r
+    return _serde_cache[line]
+
+
 def _impl(case, impl_line):
+    if case.cmd == "canon":
+        return _serde_line(case)
     return _po_line(case) if impl_line == "skip" else impl_line
 
 
 def compare(case, model_line, impl_line):
     if case.cmd == "txt":
         return None if model_line == "skip" else "model answered a txt case"
+    if case.cmd == "canon":
+        return None          # implementation only
     il = _impl(case, impl_line)
     if il is None:
         return "no answer"
@@ -550,30 +627,35 @@ def oracle(case, impl_line):
         if "nan" in repr(want):
             return None
         return None if got == want else "the printed toml::Table decodes to a different value"
+    if case.cmd == "canon":
+        return oracle_canon(case, il)
     tree = dec(case.args[1].decode())
     if not isinstance(tree, Tab):
         return None if il == "not-a-table:err" else "a non-table root was serialized: %s" % il[:80]
     f = fields(il)
-    for k in ("vdoc", "pdoc", "tdoc", "vdisp", "rb", "fix", "pp", "dec", "tfix", "det", "text", "ptext", "ttext"):
+    for k in ("vdoc", "pdoc", "tdoc", "sdoc", "vdisp", "rb", "fix", "pp", "dec", "tfix", "sdec", "s2fix", "det", "text", "ptext", "ttext", "stext"):
         if k not in f:
             return "malformed observation line: %s" % il[:200]
     names = {"det": "the same value printed twice gave two texts",
              "fix": "to_string(from_str(to_string(v))) differs from to_string(v)",
              "pp": "the plain and the pretty output decode to different values",
              "dec": "the output does not decode to v",
-             "tfix": "printing a parsed toml::Table twice gave two texts (or another table)"}
+             "tfix": "printing a parsed toml::Table twice gave two texts (or another table)",
+             "sdec": "the output of a serializer that keeps its own order does not decode to v",
+             "s2fix": "the Value read from such an output does not print to a fixed point"}
     for k, msg in names.items():
         if f[k] != "ok":
             return msg
     want = norm_tree(tree)
-    for k, what in (("text", "to_string"), ("ptext", "to_string_pretty"), ("ttext", "Display for Table")):
+    for k, what in (("text", "to_string"), ("ptext", "to_string_pretty"), ("ttext", "Display for Table"),
+                    ("stext", "to_string of an own-order serializer")):
         try:
             got = norm_py(tomllib.loads(unhex(f[k]).decode("utf-8")))
         except Exception as e:
             return "%s wrote invalid TOML: %s" % (what, e)
         if got != want:
             return "%s: the text decodes to another value than v" % what
-    for k in ("vdoc", "pdoc", "tdoc"):
+    for k in ("vdoc", "pdoc", "tdoc", "sdoc"):
         if f[k] == "UNREADABLE":
             return "%s: the text does not have the line structure of a document" % k
         why = structure_ok(f[k], tree)
@@ -588,15 +670,68 @@ def oracle(case, impl_line):
     return None
 
 
+def _tomllib_norm(text):
+    try:
+        return norm_py(tomllib.loads(text))
+    except Exception:
+        return None
+
+
+def oracle_canon(case, il):
+    f = {}
+    for part in il.split(" "):
+        k, _, v = part.partition("=")
+        f[k] = v
+    s1 = f.get("s1", "")
+    if il.startswith("BADCASE") or not s1:
+        return "generator/harness bug: %s" % il[:200]
+    if s1.startswith("err("):
+        return None                    # not serializable: nothing is claimed
+    if not case.meta.get("counted"):
+        case.meta["counted"] = True
+        STATS["derived_serializable"] += 1
+    if f.get("det") != "=":
+        return "the same value printed twice gave two texts"
+    for k, what in (("dp", "to_string_pretty"), ("de", "toml_edit::ser::to_string"), ("dep", "toml_edit::ser::to_string_pretty")):
+        if f.get(k) != "=":
+            return "%s decodes to another value than to_string: %s" % (what, f.get(k, "")[:200])
+    if not f.get("tt", "").startswith("ok:"):
+        return "the text parsed as toml::Table does not print the same twice: %s" % f.get("tt", "")[:200]
+    text1 = unhex(s1[3:]).decode("utf-8")
+    for k in ("s2", "sp2"):
+        x = f.get(k)
+        if x is None and k == "sp2":
+            continue
+        if x == "=":
+            continue
+        if x in ("err", "noparse", None):
+            return "%s: the text cannot be read back and printed (%s)" % (k, x)
+        # a different text: it must hold the same value (the type's field order is not a Value's)
+        if k == "s2":
+            a, b = _tomllib_norm(text1), _tomllib_norm(unhex(x).decode("utf-8"))
+            if b is None and a is not None:
+                return "the reprinted text is not valid TOML"
+            if a is not None and a != b:
+                return "the reprinted text decodes to another value"
+            if not case.meta.get("counted2"):
+                case.meta["counted2"] = True
+                STATS["derived_reordered"] += 1
+    return None
+
+
 def nontrivial(case, impl_line):
+    if case.cmd == "canon":
+        il = _impl(case, impl_line)
+        return bool(case.meta.get("nt")) and il is not None and il.startswith("s1=ok")
     return bool(case.meta.get("nt"))
 
 
 def extra_coverage(cases, impl, model):
-    n = {"val/s": 0, "val/i": 0, "txt": 0}
+    n = {"val/s": 0, "val/i": 0, "txt": 0, "canon/s": 0, "canon/i": 0}
     for c in cases:
-        n["txt" if c.cmd == "txt" else "val/" + c.args[0].decode()] += 1
-    return {"cases_per_configuration": n, "cases_run_on_preserve_order_build": len(_po_cache)}
+        n["txt" if c.cmd == "txt" else ("canon/" + c.args[2].decode() if c.cmd == "canon" else "val/" + c.args[0].decode())] += 1
+    return {"cases_per_configuration": n, "cases_run_on_preserve_order_build": len(_po_cache),
+            "derived_type_cases_on_serde_harness": len(_serde_cache), "derived": dict(STATS)}
 
 
 def search(rng, ctx):
@@ -606,7 +741,7 @@ def search(rng, ctx):
 def shrink(case, il, why, run):
     """drop entries / array elements while the case still fails"""
     if case.cmd != "val":
-        return case, il, why
+        return case, _impl(case, il), why
     cur = dec(case.args[1].decode())
     cur_il, cur_why = _impl(case, il), why
 
@@ -642,12 +777,14 @@ def shrink(case, il, why, run):
 
 
 THEOREMS += [
-    "C17_canonical_document: forall ml m, emit_value_doc ml m = sections_of ml true m /\\ emit_table_doc ml m = sections_of ml false m (three loops + DocumentFormatter + visit_nested_tables/visit_table = the reference document, every value, every map order)",
-    "C17_values_before_tables / C17_table_shape / C17_values_before_tables_doc: any table value in any entry order, written at any path: its own section (all its key/value lines) first, every later section strictly below its path",
-    "C17_any_order_decodes: wf v -> exists r, read_back (emit v) = Some r /\\ r = v up to the order of map entries (both printers, both layouts; the reader refuses duplicate keys / tables)",
-    "C17_any_order_same_value, C17_permutation_is_equiv: values equal up to map order (e.g. any permutation of a map's entries) decode to values equal up to map order",
+    "writers: WValue = impl Serialize for Value (three loops at every level), WTable = toml::Table at the root (Display for Table), WStruct = a derived struct / any serializer that keeps its own order at every level",
+    "C17_canonical_document: forall w ml m, emit_doc w ml m = sections_of ml (w_three w) (w_tn w) m (serializer + DocumentFormatter + visit_nested_tables/visit_table = the reference document: every value, every map / field order)",
+    "C17_values_before_tables / _struct / C17_table_shape / C17_values_before_tables_doc: any table in any entry order, written at any path by either kind of serializer: its own section (all its key/value lines) first, every later section strictly below its path",
+    "C17_any_order_decodes: wf v -> exists r, read_back (emit_doc w ml v) = Some r /\\ r = v up to the order of map entries /\\ wf r (every writer, both layouts; the reader refuses duplicate keys / tables)",
+    "C17_any_order_same_value, C17_permutation_is_equiv, C17_any_permutation_decodes, C17_permuted_is_equiv: values equal up to map order (perm_tv: the entries of any maps, at any depth, permuted) give documents that are accepted and decode to v up to map order",
     "C17_decodes_to_v_sorted: under BTreeMap the decoded value is exactly v",
-    "C17_fixpoint: wf v -> (BTreeMap: v sorted) -> exists r, decode o (emit v) = Some r /\\ emit r = emit v, for o = BTreeMap and IndexMap, for to_string(&Value) and for Display of toml::Table (printing a parsed Table twice)",
-    "C17_plain_pretty: decode o (emit pretty v) = decode o (emit plain v) <> None",
+    "C17_fixpoint: w in {WValue, WTable} -> wf v -> (BTreeMap: v sorted) -> exists r, decode o (emit v) = Some r /\\ emit r = emit v, for o = BTreeMap and IndexMap (to_string(&Value); printing a parsed Table twice)",
+    "C17_struct_second_print (+ Example C17_struct_reprint_differs): a struct's text re-read as toml::Value holds the struct's value up to order and prints to a text that IS a fixed point; the first reprint differs in general (fields sorted / regrouped)",
+    "C17_plain_pretty: decode o (emit_doc w pretty v) = decode o (emit_doc w plain v) <> None",
     "C17_line_value_layout_free: the value a key/value line holds does not depend on the plain / pretty array layout",
 ]
